@@ -417,7 +417,7 @@ class POSet:
         for cache_name in cache_names[:3]:
             cache_comb = self._combine_caches(
                 self.__dict__[cache_name], self._elements,
-                other.__dict__[cache_name], other._elements,
+                other.__dict__.get(cache_name, {}), other._elements,
                 poset_combined._elements
             )
 
@@ -428,7 +428,7 @@ class POSet:
                     el = poset_combined._elements[idx]
                     if el not in elements_and \
                             or self.index(el) not in self.__dict__[cache_name] \
-                            or other.index(el) not in other.__dict__[cache_name]:
+                            or other.index(el) not in other.__dict__.get(cache_name, {}):
                         del cache_comb[idx]
 
             poset_combined.__dict__[cache_name] = cache_comb
@@ -441,7 +441,7 @@ class POSet:
                                                    ('_cache_parents', '_cache_ancestors', False)]:
             keys_cached = set(self._combine_caches(
                 self.__dict__[direct_name], self._elements,
-                other.__dict__[direct_name], other._elements,
+                other.__dict__.get(direct_name, {}), other._elements,
                 poset_combined._elements
             ))
             cache_comb = {}
